@@ -7,7 +7,7 @@
    The harness shares nothing between threads: one struct api + one output buffer per thread; the
    threads only meet at the start barrier (no further synchronisation, which would hide races).
 
-   stdin:  "threads <N> reps <R> mode <par|seq> [alloc <default|arena>]"  then lines "<tid> <api command>", then "end".
+   stdin:  "threads <N> reps <R> mode <par|seq> [alloc <default|arena|p00|pff|p5a|dirty|arena+pff...>]"  then lines "<tid> <api command>", then "end".
    stdout: "T<tid> <result or diagnostic line>" in thread order. */
 #define _GNU_SOURCE
 #include <pthread.h>
@@ -18,6 +18,11 @@
 #include "c17_api.h"
 
 #define MAXT 16
+#define PB_BUCKETS 1024
+struct pblk {
+  size_t size;
+  struct pblk *next;
+};
 
 struct th {
   struct api api;
@@ -28,6 +33,11 @@ struct th {
   int reps, failed, tid;
   pthread_t pt;
   struct MIR_code_alloc code_alloc;
+  /* poisoning data allocator (header "alloc p00|pff|p5a|dirty", may be combined: "arena+pff") */
+  struct MIR_alloc data_alloc;
+  int fill; /* byte every block handed out is pre-filled with, or -1: dirty = freed blocks are handed out again
+               (same size, last freed first) with the bytes their previous owner left in them */
+  struct pblk *freed[PB_BUCKETS];
 };
 
 static struct th ths[MAXT];
@@ -99,6 +109,58 @@ static int ar_protect (void *ptr, size_t len, MIR_mem_protect_t prot, void *ud) 
   return mprotect (ptr, len, prot == PROT_WRITE_EXEC ? PROT_READ | PROT_WRITE | PROT_EXEC : PROT_READ | PROT_EXEC);
 }
 
+/* ---- poisoning data allocator.  The library must initialise every field of a context (and of the sub-contexts it
+   allocates) itself: nothing may be inherited from what the allocator returns.  Every block handed out by malloc /
+   the grown tail of realloc is pre-filled with a byte (0x00, 0xff, 0x5a) or, in mode dirty, is a block freed earlier
+   by this thread (same size, last freed first: the next context's struct MIR_context is exactly the block of the
+   finished one) with its old bytes.  The same script must behave identically under every fill.  All state is per
+   thread (struct th). */
+static void *pb_get (struct th *t, size_t n) {
+  struct pblk *b;
+  if (t->fill < 0) {
+    struct pblk **pp = &t->freed[n % PB_BUCKETS];
+    for (; *pp != NULL; pp = &(*pp)->next)
+      if ((*pp)->size == n) {
+        b = *pp;
+        *pp = b->next;
+        return b + 1;
+      }
+  }
+  if ((b = malloc (sizeof (struct pblk) + n)) == NULL) return NULL;
+  b->size = n;
+  memset (b + 1, t->fill < 0 ? 0 : t->fill, n);
+  return b + 1;
+}
+static void pb_put (struct th *t, void *p) {
+  struct pblk *b;
+  if (p == NULL) return;
+  b = (struct pblk *) p - 1;
+  if (t->fill < 0) {
+    b->next = t->freed[b->size % PB_BUCKETS];
+    t->freed[b->size % PB_BUCKETS] = b;
+  } else {
+    memset (p, (t->fill ^ 0x33) & 0xff, b->size); /* stale reads do not see valid data either */
+    free (b);
+  }
+}
+static void *pb_malloc (size_t n, void *ud) { return pb_get (ud, n); }
+static void *pb_calloc (size_t k, size_t n, void *ud) {
+  void *p = pb_get (ud, k * n);
+  if (p != NULL) memset (p, 0, k * n);
+  return p;
+}
+static void *pb_realloc (void *p, size_t old, size_t n, void *ud) {
+  void *q = pb_get (ud, n);
+  (void) old;
+  if (q != NULL && p != NULL) {
+    size_t o = ((struct pblk *) p - 1)->size;
+    memcpy (q, p, o < n ? o : n);
+    pb_put (ud, p);
+  }
+  return q;
+}
+static void pb_free (void *p, void *ud) { pb_put (ud, p); }
+
 static void th_out (struct api *a, const char *line) {
   struct th *t = a->user;
   size_t n = strlen (line);
@@ -107,6 +169,113 @@ static void th_out (struct api *a, const char *line) {
     t->out = realloc (t->out, t->ocap);
   }
   t->olen += (size_t) sprintf (t->out + t->olen, "T%d %s\n", t->tid, line);
+}
+
+/* ---- script commands of this harness only (not known to harness/c17_api.h):
+     redef <0|1>    MIR_set_func_redef_permission
+     flags          print the option state a context exposes (func redefinition permission)
+     dbglines <f>   MIR_gen of <f> with the debug output (level 0) summarised (lines, code length): depends on the optimize level
+                    in force (default when the script did not set one)
+     patchend       publish code filling its page exactly up to the page end, then patch it with _MIR_change_code /
+                    _MIR_update_code / _MIR_update_code_arr at every position around the page end (last byte of the
+                    patch = last byte of the page, one before, ...) and around the page start
+   -> 1 handled, 0 not one of these, -1 failed */
+static int c18_exec (struct th *t, const char *line) {
+  struct api *a = &t->api;
+  char cmd[32], s1[200];
+  int err;
+  s1[0] = 0;
+  if (sscanf (line, "%31s %199s", cmd, s1) < 1) return 0;
+  if (strcmp (cmd, "redef") != 0 && strcmp (cmd, "flags") != 0 && strcmp (cmd, "dbglines") != 0
+      && strcmp (cmd, "patchend") != 0)
+    return 0;
+  if (a->ctx == NULL) return -1;
+  api_cur = a;
+  if ((err = setjmp (a->err_jmp)) != 0) {
+    a->err_armed = 0;
+    api_outf (a, "X MIRERROR %d %s", err - 1, a->errmsg);
+    return -1;
+  }
+  a->err_armed = 1;
+  if (strcmp (cmd, "redef") == 0) {
+    MIR_set_func_redef_permission (a->ctx, atoi (s1));
+  } else if (strcmp (cmd, "flags") == 0) {
+    api_outf (a, "R flags redef=%d", MIR_get_func_redef_permission_p (a->ctx));
+  } else if (strcmp (cmd, "dbglines") == 0) {
+    MIR_item_t f = api_find_func (a, s1);
+    FILE *df = tmpfile ();
+    long n = 0, len = 0;
+    static const char key[] = "len=";
+    int c, k = 0;
+    if (f == NULL || df == NULL || !a->gen_on) {
+      a->err_armed = 0;
+      api_outf (a, "X NOFUNC %s", s1);
+      return -1;
+    }
+    MIR_gen_set_debug_file (a->ctx, df);
+    MIR_gen_set_debug_level (a->ctx, 0); /* level 0: one line per generated function with the code length */
+    void *addr = MIR_gen (a->ctx, f);
+    MIR_gen_set_debug_file (a->ctx, a->null_file);
+    fflush (df);
+    rewind (df);
+    while ((c = getc (df)) != EOF) {
+      if (c == '\n') n++;
+      if (c == key[k]) {
+        if (key[++k] == 0) {
+          long v = 0;
+          while ((c = getc (df)) >= '0' && c <= '9') v = 10 * v + (c - '0');
+          len += v;
+          k = 0;
+          if (c == '\n') n++;
+        }
+      } else
+        k = c == key[0];
+    }
+    fclose (df);
+    api_outf (a, "R dbglines %s %s lines=%ld codelen=%ld", s1, addr != NULL ? "ok" : "null", n, len);
+  } else { /* patchend */
+    static const uint8_t rets[2 * 4096] = {0};
+    uint8_t nops[16];
+    int npatch = 0;
+    memset (nops, 0x90, sizeof (nops));
+    for (int round = 0; round < 2; round++) {
+      uint8_t *p = _MIR_get_new_code_addr (a->ctx, 1), *q, *end;
+      size_t room = p == NULL ? 0 : 4096 - ((size_t) p & 4095);
+      if (room == 0) break;
+      if (room < 64) room += 4096; /* too little left: this page and the whole next one */
+      q = _MIR_publish_code (a->ctx, rets, room);
+      if (q == NULL || (((size_t) q + room) & 4095) != 0) { /* not placed at the free address: no page end to aim at */
+        api_outf (a, "R patchend moved");
+        continue;
+      }
+      end = q + room;
+      for (size_t back = 0; back <= 2; back++)      /* patch ends `back` bytes before the page end */
+        for (size_t len = 1; len <= 16; len += (len < 8 ? 7 : len == 8 ? 5 : 3)) { /* 1, 8, 13, 16 */
+          _MIR_change_code (a->ctx, end - back - len, nops, len);
+          npatch++;
+        }
+      for (size_t back = 0; back <= 1; back++) { /* relocation slot = last 8 bytes of the page / one before */
+        MIR_code_reloc_t rl[2];
+        _MIR_update_code (a->ctx, q, 1, room - 8 - back, nops);
+        rl[0].offset = room - 24 - back;
+        rl[0].value = nops;
+        rl[1].offset = room - 8 - back;
+        rl[1].value = nops;
+        _MIR_update_code_arr (a->ctx, q, 2, rl);
+        npatch += 2;
+      }
+      if (((size_t) q & 4095) == 0 || room > 4096) { /* a patch starting exactly at a page start */
+        uint8_t *ps = (uint8_t *) (((size_t) end - 1) & ~(size_t) 4095);
+        if (ps >= q) {
+          _MIR_change_code (a->ctx, ps, nops, 8);
+          npatch++;
+        }
+      }
+    }
+    api_outf (a, "R patchend %d", npatch);
+  }
+  a->err_armed = 0;
+  return 1;
 }
 
 static void *th_main (void *arg) {
@@ -118,11 +287,13 @@ static void *th_main (void *arg) {
     a->gen_on = a->c2m_on = a->linked = 0;
     a->nloaded = 0;
     a->wlen = a->rpos = 0;
-    for (size_t i = 0; i < t->nlines; i++)
-      if (api_exec (a, t->lines[i]) != 0) {
+    for (size_t i = 0; i < t->nlines; i++) {
+      int h = c18_exec (t, t->lines[i]);
+      if (h < 0 || (h == 0 && api_exec (a, t->lines[i]) != 0)) {
         t->failed = 1;
         break;
       }
+    }
   }
   api_cleanup_files (&t->api);
   return NULL;
@@ -134,9 +305,9 @@ int main (void) {
   char mode[16] = "par";
   FILE *nullf = fopen ("/dev/null", "w");
 
-  char amode[16] = "default";
+  char amode[32] = "default";
   if (fgets (line, sizeof (line), stdin) == NULL
-      || sscanf (line, "threads %d reps %d mode %15s alloc %15s", &n, &reps, mode, amode) < 3) {
+      || sscanf (line, "threads %d reps %d mode %15s alloc %31s", &n, &reps, mode, amode) < 3) {
     fprintf (stderr, "bad header\n");
     return 64;
   }
@@ -148,7 +319,16 @@ int main (void) {
     ths[i].api.id = i;
     ths[i].api.alloc = NULL; /* default allocators: plain malloc/mmap, which TSan knows */
     ths[i].api.code_alloc = NULL;
-    if (strcmp (amode, "arena") == 0) {
+    ths[i].fill = strstr (amode, "p00")   ? 0x00
+                  : strstr (amode, "pff") ? 0xff
+                  : strstr (amode, "p5a") ? 0x5a
+                  : strstr (amode, "dirty") ? -1
+                                            : -2;
+    if (ths[i].fill != -2) {
+      ths[i].data_alloc = (struct MIR_alloc){pb_malloc, pb_calloc, pb_realloc, pb_free, &ths[i]};
+      ths[i].api.alloc = &ths[i].data_alloc;
+    }
+    if (strstr (amode, "arena") != NULL) {
       if (arena == NULL)
         arena = mmap (NULL, ARENA_PAGES * APAGE, PROT_READ | PROT_EXEC, MAP_PRIVATE | MAP_ANONYMOUS | MAP_NORESERVE, -1, 0);
       ths[i].code_alloc = (struct MIR_code_alloc){ar_map, ar_unmap, ar_protect, &ths[i]};
